@@ -58,6 +58,8 @@ op_kinds!(
     DropHandle,
     SwitchHandle,
     OtherFile,
+    FoldAll,
+    SizeHint,
 );
 
 #[derive(Clone, Copy, Debug, PartialEq, Eq)]
@@ -115,6 +117,8 @@ counters!(
     op_DropHandle,
     op_SwitchHandle,
     op_OtherFile,
+    op_FoldAll,
+    op_SizeHint,
     fault_restart_aligned_midway,
     fault_restart_torn_inside_crlf,
     fault_restart_torn_other,
@@ -236,7 +240,7 @@ pub fn generate(seed: u64, config: u64, scale_arg: u32) -> Case {
     let trailing = r.chance(15, 100);
 
     // --- op mix for this run (swarm)
-    let mut w = [0u32; 20];
+    let mut w = [0u32; 22];
     let pickw = |r: &mut Rng, opts: &[u32]| *r.pick(opts);
     w[K::Next as usize] = pickw(&mut r, &[0, 2, 6, 10]);
     w[K::NextBack as usize] = pickw(&mut r, &[0, 2, 6, 10]);
@@ -252,6 +256,7 @@ pub fn generate(seed: u64, config: u64, scale_arg: u32) -> Case {
     w[K::DropHandle as usize] = pickw(&mut r, &[0, 1]);
     w[K::SwitchHandle as usize] = pickw(&mut r, &[0, 1, 2]);
     w[K::OtherFile as usize] = pickw(&mut r, &[0, 1, 2]);
+    w[K::SizeHint as usize] = pickw(&mut r, &[0, 0, 1]);
     if faults {
         w[K::RestartAligned as usize] = pickw(&mut r, &[0, 1, 3]);
         w[K::RestartTornFront as usize] = pickw(&mut r, &[0, 1, 2]);
@@ -259,6 +264,7 @@ pub fn generate(seed: u64, config: u64, scale_arg: u32) -> Case {
         w[K::Last as usize] = pickw(&mut r, &[0, 0, 1]);
         w[K::Count as usize] = pickw(&mut r, &[0, 0, 1]);
         w[K::RevCollect as usize] = pickw(&mut r, &[0, 0, 1]);
+        w[K::FoldAll as usize] = pickw(&mut r, &[0, 0, 1]);
     }
     if w[K::Next as usize] == 0 && w[K::NextBack as usize] == 0 {
         // every run drives the iterator
@@ -794,6 +800,60 @@ impl<'t, 's> Exec<'t, 's> {
             K::Nth | K::NthBack => {
                 // std's default nth/nth_back, built on next/next_back: k skipped, one returned
                 let k = (op.a % 3) as usize;
+                if op.b % 2 == 1 && matches!(self.it, It::Plain(_)) {
+                    // the real adaptor on the live iterator (an implementation may override nth /
+                    // nth_back; whatever it does must equal k+1 pulls from that end)
+                    let lines = self.window_lines();
+                    let front = op.k == K::Nth;
+                    let It::Plain(it) = &mut self.it else { unreachable!() };
+                    let got = guarded(|| if front { it.nth(k) } else { it.nth_back(k) })
+                        .map_err(|p| (format!("panic:{}", panic_class(&p)), p))?;
+                    if front {
+                        self.used_front = true;
+                        self.pulls = self.pulls.wrapping_mul(3).wrapping_add(1);
+                    } else {
+                        self.used_back = true;
+                        self.pulls = self.pulls.wrapping_mul(3).wrapping_add(2);
+                    }
+                    let exp = if lines.len() > k {
+                        Some(if front { lines[k] } else { lines[lines.len() - 1 - k] })
+                    } else {
+                        None
+                    };
+                    return match (got, exp) {
+                        (None, None) => {
+                            // everything was consumed from that end
+                            if front {
+                                for l in &lines {
+                                    self.front_yield.push(*l);
+                                }
+                                self.f = self.b;
+                            } else {
+                                for l in lines.iter().rev() {
+                                    self.back_yield.push(*l);
+                                }
+                                self.b = self.f;
+                            }
+                            Ok(())
+                        }
+                        (Some(g), Some(e)) => {
+                            self.check_line(&g, e)?;
+                            if front {
+                                for l in &lines[..=k] {
+                                    self.front_yield.push(*l);
+                                }
+                                self.f = e.full_end;
+                            } else {
+                                for l in lines[lines.len() - 1 - k..].iter().rev() {
+                                    self.back_yield.push(*l);
+                                }
+                                self.b = e.start;
+                            }
+                            Ok(())
+                        }
+                        (g, e) => Err(mismatch(format!("nth/nth_back({k}) on the live iterator gave {:?}, model {:?}", g, e))),
+                    };
+                }
                 for _ in 0..=k {
                     if op.k == K::Nth {
                         self.do_next()?;
@@ -929,6 +989,81 @@ impl<'t, 's> Exec<'t, 's> {
                 self.front_epoch = b;
                 self.front_yield.clear();
                 self.restart(b, b);
+                Ok(())
+            }
+            K::FoldAll => {
+                // everything std builds on fold / rfold / for_each / count: an implementation may
+                // override these; they must hand out the same lines as repeated next()/next_back()
+                self.stats.bump(C::fault_by_value_consumption as usize);
+                let lines = self.window_lines();
+                let extra = (self.trailing && self.trailing_pending) as usize;
+                let b = self.b;
+                let it = std::mem::replace(&mut self.it, Self::new_iter(self.text, b, b, self.base, false));
+                let variant = op.a % 4;
+                let mut reversed = false;
+                let got: Vec<Line> = match it {
+                    It::Plain(it) => guarded(|| match variant {
+                        0 => it.fold(Vec::new(), |mut v, l| {
+                            v.push(l);
+                            v
+                        }),
+                        1 => it.rfold(Vec::new(), |mut v, l| {
+                            v.push(l);
+                            v
+                        }),
+                        2 => {
+                            let mut v = Vec::new();
+                            it.for_each(|l| v.push(l));
+                            v
+                        }
+                        _ => it.map(|l| l).filter(|_| true).fold(Vec::new(), |mut v, l| {
+                            v.push(l);
+                            v
+                        }),
+                    }),
+                    It::Trailing(it) => guarded(|| match variant {
+                        2 => {
+                            let mut v = Vec::new();
+                            it.for_each(|l| v.push(l));
+                            v
+                        }
+                        _ => it.fold(Vec::new(), |mut v, l| {
+                            v.push(l);
+                            v
+                        }),
+                    }),
+                }
+                .map_err(|p| (format!("panic:{}", panic_class(&p)), p))?;
+                if variant == 1 && !self.trailing {
+                    reversed = true;
+                }
+                let mut want: Vec<MLine> = lines.clone();
+                if extra == 1 {
+                    want.push(MLine { start: b, end: b, full_end: b });
+                }
+                if reversed {
+                    want.reverse();
+                }
+                if got.len() != want.len() {
+                    return Err(mismatch(format!("fold/rfold/for_each handed out {} lines, model {}", got.len(), want.len())));
+                }
+                for (g, e) in got.iter().zip(want.iter()) {
+                    self.check_line(g, *e)?;
+                }
+                self.front_epoch = b;
+                self.front_yield.clear();
+                self.restart(b, b);
+                Ok(())
+            }
+            K::SizeHint => {
+                let remaining = self.window_lines().len() + (self.trailing && self.trailing_pending) as usize;
+                let (lo, hi) = match &self.it {
+                    It::Plain(it) => it.size_hint(),
+                    It::Trailing(it) => it.size_hint(),
+                };
+                if lo > remaining || hi.is_some_and(|h| remaining > h) {
+                    return Err(mismatch(format!("size_hint() = ({lo}, {:?}) but {remaining} lines remain", hi)));
+                }
                 Ok(())
             }
             K::RestartAligned => {
